@@ -1311,7 +1311,21 @@ void CLUFactor<R>::update(int p_col, R* p_work, const int* p_idx, int num)
    R* lval;
    R x, rezi;
 
-   assert(p_work[p_col] != 0.0);
+   // the pivot element must be a nonzero entry of the index set; otherwise the updated matrix is singular (the
+   // Forest-Tomlin update reports that as well) and the loops below would run off the index array
+   {
+      bool found = false;
+
+      for(i = 0; i < num && !found; ++i)
+         found = (p_idx[i] == p_col);
+
+      if(!found || p_work[p_col] == 0.0)
+      {
+         this->stat = SLinSolver<R>::SINGULAR;
+         throw SPxStatusException("XFORE04 The loaded matrix is singular");
+      }
+   }
+
    rezi = 1 / p_work[p_col];
    p_work[p_col] = 0.0;
 
@@ -1360,7 +1374,21 @@ void CLUFactor<R>::updateNoClear(
    R* lval;
    R x, rezi;
 
-   assert(p_work[p_col] != 0.0);
+   // the pivot element must be a nonzero entry of the index set; otherwise the updated matrix is singular (the
+   // Forest-Tomlin update reports that as well) and the loops below would run off the index array
+   {
+      bool found = false;
+
+      for(i = 0; i < num && !found; ++i)
+         found = (p_idx[i] == p_col);
+
+      if(!found || p_work[p_col] == 0.0)
+      {
+         this->stat = SLinSolver<R>::SINGULAR;
+         throw SPxStatusException("XFORE04 The loaded matrix is singular");
+      }
+   }
+
    rezi = 1 / p_work[p_col];
    ll = makeLvec(num, p_col);
    //ll = fac->makeLvec(num, col);
